@@ -351,11 +351,15 @@ Proof.
       rewrite skipn_app_ge by lia. rewrite Hbl. repeat split; auto; apply Hs'.
 Qed.
 
-Theorem discard_refines n l : WF l -> (Z.of_nat n <= len l)%Z -> slices l <> [] ->
+Theorem discard_refines n l : WF l -> (Z.of_nat n <= len l)%Z ->
   exists l', discard n l = Ok (n, l') /\ content l' = skipn n (content l) /\ WF l' /\ leases l' = leases l.
 Proof.
-  intros Hwf Hle Hne. pose proof (shape_of_WF l Hwf) as Hsh. destruct Hwf as [Hlen _ _].
-  unfold discard.
+  intros Hwf Hle. pose proof (shape_of_WF l Hwf) as Hsh.
+  unfold discard. destruct (Nat.eqb_spec n 0) as [->|Hn0].
+  { exists l. cbn [skipn]. auto. }
+  destruct Hwf as [Hlen _ _].
+  assert (Hne : slices l <> []).
+  { intros E. rewrite (content_nil l E) in Hlen. simpl in Hlen. lia. }
   destruct (discard_loop_spec (S (length (slices l))) n 0 l) as [l' [Hr' [Hc' [Hl' [[Ht' Hok'] Hle']]]]]; auto; [lia|].
   rewrite Hr'. cbn [bind plus]. eexists. split; [reflexivity|].
   change (content (set_len l' (len l' - Z.of_nat n)%Z)) with (content l').
@@ -675,6 +679,7 @@ Definition spec_step (sp : spec) (o : op) : option (res * spec) :=
                  | _ => Some (RN (length bs), {| pw := []; infl := infl sp ++ pw sp ++ bs; av := av sp |})
                  end
   | WFlush => Some (RUnit, {| pw := []; infl := infl sp ++ pw sp; av := av sp |})
+  | WAdopt _ => Some (RUnit, sp)      (* result depends on the allocator *)
   | RBytes n | RString n =>
       if n =? 0 then Some (RData [], sp) else
       match spec_more n sp with
@@ -705,7 +710,7 @@ Definition spec_step (sp : spec) (o : op) : option (res * spec) :=
   | OFill _ _ | OFree _ => Some (RUnit, sp)
   end.
 
-Definition res_agree (o : op) (x y : res) : Prop := match o with OAlloc _ => True | _ => x = y end.
+Definition res_agree (o : op) (x y : res) : Prop := match o with OAlloc _ | WAdopt _ => True | _ => x = y end.
 
 (* op by op: same outcome, same bytes / n, Len of both buffers as the byte queue says *)
 Fixpoint agrees (s : sys) (sp : spec) (ops : list op) : Prop :=
@@ -721,13 +726,13 @@ Fixpoint agrees (s : sys) (sp : spec) (ops : list op) : Prop :=
     end
   end.
 
-(* the covered op set of the proved refinement: every reader operation with a positive size that
+(* the covered op set of the proved refinement: every reader operation of a size (0 included) that
    the receive buffer can satisfy, and the two releases *)
 Definition covered (a : list byte) (o : op) : Prop :=
   match o with
-  | RBytes n | RPeek n | RString n | RDiscard n => 0 < n <= length a
+  | RBytes n | RPeek n | RString n | RDiscard n => n <= length a
   | RByte => 0 < length a
-  | RRead n => 0 < n /\ 0 < length a
+  | RRead n => n = 0 \/ 0 < length a
   | RRelease | RReleaseReuse => True
   | _ => False
   end.
@@ -776,13 +781,19 @@ Proof.
     apply IH; auto. rewrite Hs', Hp'. exact Hsnd. }
   destruct o; cbn [covered] in Hco; try contradiction; cbn [spec_step] in Hrest |- *.
   - (* RBytes *)
-    destruct (Nat.eqb_spec n 0) as [|_]; [lia|]. rewrite (spec_more_enough n sp) in Hrest |- * by lia.
+    destruct (Nat.eqb_spec n 0) as [Hz|Hnz].
+    { eapply (Hclose _ sp _ s); [cbn [step]; destruct (Nat.eqb_spec n 0); [reflexivity|lia]|reflexivity|exact Hwf|exact Hc
+                                |reflexivity|reflexivity|exact Hrest]. }
+    rewrite (spec_more_enough n sp) in Hrest |- * by lia.
     destruct (read_bytes_refines (mem s) n (rcv s) Hwf) as [l1 [Hr [Hc1 Hwf1]]]; [lia|lia|].
     destruct (rd_op_ok s (fun m l => read_bytes m n l) RData _ l1 _ Hr Hwf1 Hc1) as [s' [Hst [Hwf' [Hc' [Hs' _]]]]].
     eapply Hclose; [cbn [step]; destruct (Nat.eqb_spec n 0); [lia|]; rewrite read_more_enough by lia; cbn [bind]; exact Hst
                    |rewrite Hc; reflexivity|exact Hwf'|rewrite Hc', Hc; reflexivity|exact Hs'|reflexivity|exact Hrest].
   - (* RPeek *)
-    destruct (Nat.eqb_spec n 0) as [|_]; [lia|]. rewrite (spec_more_enough n sp) in Hrest |- * by lia.
+    destruct (Nat.eqb_spec n 0) as [Hz|Hnz].
+    { eapply (Hclose _ sp _ s); [cbn [step]; destruct (Nat.eqb_spec n 0); [reflexivity|lia]|reflexivity|exact Hwf|exact Hc
+                                |reflexivity|reflexivity|exact Hrest]. }
+    rewrite (spec_more_enough n sp) in Hrest |- * by lia.
     destruct (peek_refines (mem s) n (rcv s) Hwf) as [l1 [Hr [Hs1 [Hl1 _]]]]; [lia|lia|].
     assert (Hwf1 : WF (mem s) l1) by (apply (WF_fields (mem s) (rcv s)); assumption).
     assert (Hc1 : content (mem s) l1 = content (mem s) (rcv s)) by (unfold content; rewrite Hs1; reflexivity).
@@ -791,11 +802,12 @@ Proof.
                    |rewrite Hc; reflexivity|exact Hwf'|rewrite Hc', Hc; reflexivity|exact Hs'|reflexivity|exact Hrest].
   - (* RDiscard *)
     rewrite (spec_more_enough n sp) in Hrest |- * by lia.
-    assert (Hne : slices (rcv s) <> []).
-    { intros E. rewrite <- Hc, (content_nil (mem s) _ E) in Hco. simpl in Hco. lia. }
-    destruct (discard_refines (mem s) n (rcv s) Hwf) as [l1 [Hr [Hc1 [Hwf1 _]]]]; [lia|exact Hne|].
+    destruct (Nat.eqb_spec n 0) as [Hz|Hnz].
+    { subst n. eapply (Hclose _ (with_av sp (skipn 0 (av sp))) _ s); [cbn [step Nat.eqb]; reflexivity|reflexivity|exact Hwf|exact Hc
+                                |reflexivity|reflexivity|exact Hrest]. }
+    destruct (discard_refines (mem s) n (rcv s) Hwf) as [l1 [Hr [Hc1 [Hwf1 _]]]]; [lia|].
     destruct (rd_op_ok s (fun _ l => discard n l) RN _ l1 _ Hr Hwf1 Hc1) as [s' [Hst [Hwf' [Hc' [Hs' _]]]]].
-    eapply Hclose; [cbn [step]; rewrite read_more_enough by lia; cbn [bind]; exact Hst
+    eapply Hclose; [cbn [step]; destruct (Nat.eqb_spec n 0); [lia|]; rewrite read_more_enough by lia; cbn [bind]; exact Hst
                    |reflexivity|exact Hwf'|rewrite Hc', Hc; reflexivity|exact Hs'|reflexivity|exact Hrest].
   - (* RByte *)
     rewrite (spec_more_enough 1 sp) in Hrest |- * by lia.
@@ -805,13 +817,20 @@ Proof.
     eapply Hclose; [cbn [step]; rewrite read_more_enough by (simpl in Hlen; lia); cbn [bind]; exact Hst
                    |reflexivity|exact Hwf'|rewrite Hc'; reflexivity|exact Hs'|reflexivity|exact Hrest].
   - (* RString *)
-    destruct (Nat.eqb_spec n 0) as [|_]; [lia|]. rewrite (spec_more_enough n sp) in Hrest |- * by lia.
+    destruct (Nat.eqb_spec n 0) as [Hz|Hnz].
+    { eapply (Hclose _ sp _ s); [cbn [step]; destruct (Nat.eqb_spec n 0); [reflexivity|lia]|reflexivity|exact Hwf|exact Hc
+                                |reflexivity|reflexivity|exact Hrest]. }
+    rewrite (spec_more_enough n sp) in Hrest |- * by lia.
     destruct (read_string_refines (mem s) n (rcv s) Hwf) as [l1 [Hr [Hc1 [Hwf1 _]]]]; [lia|lia|].
     destruct (rd_op_ok s (fun m l => read_string m n l) RData _ l1 _ Hr Hwf1 Hc1) as [s' [Hst [Hwf' [Hc' [Hs' _]]]]].
     eapply Hclose; [cbn [step]; destruct (Nat.eqb_spec n 0); [lia|]; rewrite read_more_enough by lia; cbn [bind]; exact Hst
                    |rewrite Hc; reflexivity|exact Hwf'|rewrite Hc', Hc; reflexivity|exact Hs'|reflexivity|exact Hrest].
   - (* RRead *)
-    destruct (Nat.eqb_spec n 0) as [|_]; [lia|]. rewrite (spec_more_enough 1 sp) in Hrest |- * by lia.
+    destruct (Nat.eqb_spec n 0) as [Hz|Hnz].
+    { eapply (Hclose _ sp _ s); [cbn [step]; destruct (Nat.eqb_spec n 0); [reflexivity|lia]|reflexivity|exact Hwf|exact Hc
+                                |reflexivity|reflexivity|exact Hrest]. }
+    assert (Hpos : 0 < length (av sp)) by (destruct Hco; [lia|assumption]).
+    rewrite (spec_more_enough 1 sp) in Hrest |- * by lia.
     destruct (read_copy_refines (mem s) n (rcv s) Hwf) as [l1 [Hr [Hc1 [Hwf1 _]]]]; [lia|].
     destruct (rd_op_ok s (fun m l => read_copy m n l) RData _ l1 _ Hr Hwf1 Hc1) as [s' [Hst [Hwf' [Hc' [Hs' _]]]]].
     eapply Hclose; [cbn [step]; destruct (Nat.eqb_spec n 0); [lia|]; rewrite read_more_enough by lia; cbn [bind]; exact Hst
@@ -859,31 +878,19 @@ Proof.
 Qed.
 
 (* ---------------------------------------------------------------------------------------- *)
-(* the full statement, and its refutation at size 0                                          *)
+(* the full statement; the two size-0 scenarios that used to refute it (nil dereferences,      *)
+(* repaired by the size <= 0 guards of Discard and Reserve) are kept as regression lemmas      *)
 (* ---------------------------------------------------------------------------------------- *)
 Definition pipe_full : Prop := forall cfg ops, agrees (init_sys cfg) spec0 ops.
 
-Lemma discard0_panics : step (init_sys [(16, 2)]) (RDiscard 0) = Panic 1.
-Proof. vm_compute. reflexivity. Qed.
+Lemma discard0_ok : forall s, step s (RDiscard 0) = Ok (RN 0, s).
+Proof. reflexivity. Qed.
 
-Lemma reserve0_exhausted_panics :
-  exists s1 r, step (init_sys [(16, 2)]) (OAlloc 16) = Ok (r, s1) /\ step s1 (WReserve []) = Panic 2.
-Proof. eexists. eexists. split; vm_compute; reflexivity. Qed.
+Lemma reserve0_ok : forall s, step s (WReserve []) = Ok (RUnit, s).
+Proof. intros s. cbn [step reserve length Nat.eqb bind]. destruct s; reflexivity. Qed.
 
-Lemma pipe_full_refuted : ~ pipe_full.
-Proof.
-  intros H. specialize (H [(16, 2)] [RDiscard 0]). cbn [agrees] in H.
-  change (spec_step spec0 (RDiscard 0)) with (Some (RN 0, spec0)) in H. destruct H as [y [s' [H _]]]. rewrite discard0_panics in H. discriminate.
-Qed.
-
-Lemma pipe_full_refuted_reserve0 : ~ pipe_full.
-Proof.
-  intros H. specialize (H [(16, 2)] [OAlloc 16; WReserve []]). cbn [agrees spec_step] in H.
-  destruct H as [y [s' [H1 [_ [_ [_ H2]]]]]]. cbn [agrees spec_step] in H2.
-  destruct H2 as [y2 [s2 [H2 _]]].
-  destruct reserve0_exhausted_panics as [s1 [r [G1 G2]]]. rewrite G1 in H1. injection H1 as <- <-.
-  rewrite G2 in H2. discriminate.
-Qed.
+Lemma size0_regression : agrees (init_sys [(16, 2)]) spec0 [RDiscard 0; OAlloc 16; WReserve []; RDiscard 0].
+Proof. vm_compute. repeat (eexists; repeat split). Qed.
 
 (* ---------------------------------------------------------------------------------------- *)
 (* Part D — leases (C08)                                                                     *)
@@ -982,7 +989,8 @@ Proof.
   - destruct (n =? 0); [injection H as _ <-; apply same_data_refl|].
     destruct (read_more n s) as [s1| | |] eqn:E; cbn [bind] in H; try discriminate.
     apply read_more_same_data in E. apply rd_op_same_data in H. eapply same_data_trans; [apply E|exact H].
-  - destruct (read_more n s) as [s1| | |] eqn:E; cbn [bind] in H; try discriminate.
+  - destruct (n =? 0); [injection H as _ <-; apply same_data_refl|].
+    destruct (read_more n s) as [s1| | |] eqn:E; cbn [bind] in H; try discriminate.
     apply read_more_same_data in E. apply rd_op_same_data in H. eapply same_data_trans; [apply E|exact H].
   - destruct (read_more 1 s) as [s1| | |] eqn:E; cbn [bind] in H; try discriminate.
     apply read_more_same_data in E. apply rd_op_same_data in H. eapply same_data_trans; [apply E|exact H].
